@@ -154,7 +154,11 @@ def pexpr(e: Expr, lay: Layout) -> str:  # noqa: PLR0911, PLR0912
     if k == "int":
         return str(e[1])
     if k == "float":
-        return repr(e[1])
+        r = repr(e[1])
+        if "e" in r and "." not in r:
+            m, x = r.split("e")
+            r = m + ".0e" + x  # '1e+16' would be an integer literal in Liquid
+        return r
     if k == "str":
         return quote_string(e[1], lay.quote)
     if k == "var":
